@@ -88,7 +88,7 @@ func runProperty(p *Program, s *Specs, prop string, cfg SolveConfig) *CheckResul
 		u := &unitResult{key: k, kind: "func", errs: ex.Errs, paths: ex.pathCount}
 		for _, o := range ex.Obls {
 			if keep(o) {
-				if ex.anchorLost && !o.Structural {
+				if ex.anchorLost && (!o.Structural || !o.StructOK) {
 					// the contract of this unit lost an anchor: its obligations cannot speak
 					o.Structural, o.StructOK, o.StructMsg = true, false, "anchor-missing"
 					o.Kind = "anchor-missing"
@@ -336,7 +336,7 @@ func report(res *CheckResult, p *Program, repo, tier string, seed int, evidenceP
 			budgetHit++
 			continue
 		}
-		if o.Kind == "anchor-missing" || strings.Contains(o.Name, "#row-cover") && anchorLostUnits[o.Func] {
+		if o.Kind == "anchor-missing" || anchorLostUnits[o.Func] {
 			continue // reported as UNDECIDED anchor-missing, never as a violation
 		}
 		// known (open) findings suppress exactly the listed obligation
